@@ -182,10 +182,20 @@ fn to_py(core: &Core, ind: usize) -> String {
         Core::Block { statements } => newline_delimited(statements, ind),
 
         Core::PropertyCall { object, property } => {
-            format!("{}.{}", to_py(object, ind), to_py(property, ind))
+            // `1.real` is not Python: an integer literal needs parentheses here.
+            let min = if let Core::Int { .. } = object.as_ref() {
+                17
+            } else {
+                15
+            };
+            format!("{}.{}", operand(object, min, ind), to_py(property, ind))
         }
         Core::FunctionCall { function, args } => {
-            format!("{}({})", to_py(function, ind), comma_delimited(args, ind))
+            format!(
+                "{}({})",
+                operand(function, 15, ind),
+                comma_delimited(args, ind)
+            )
         }
 
         Core::DictComprehension {
@@ -255,175 +265,46 @@ fn to_py(core: &Core, ind: usize) -> String {
 
         Core::UnderScore => String::from("_"),
 
-        Core::Ge { left, right } => {
-            format!(
-                "{} > {}",
-                to_py(left.as_ref(), ind),
-                to_py(right.as_ref(), ind)
-            )
-        }
-        Core::Geq { left, right } => {
-            format!(
-                "{} >= {}",
-                to_py(left.as_ref(), ind),
-                to_py(right.as_ref(), ind)
-            )
-        }
-        Core::Le { left, right } => {
-            format!(
-                "{} < {}",
-                to_py(left.as_ref(), ind),
-                to_py(right.as_ref(), ind)
-            )
-        }
-        Core::Leq { left, right } => {
-            format!(
-                "{} <= {}",
-                to_py(left.as_ref(), ind),
-                to_py(right.as_ref(), ind)
-            )
-        }
+        Core::Ge { left, right } => comparison(left, ">", right, ind),
+        Core::Geq { left, right } => comparison(left, ">=", right, ind),
+        Core::Le { left, right } => comparison(left, "<", right, ind),
+        Core::Leq { left, right } => comparison(left, "<=", right, ind),
 
-        Core::Not { expr } => format!("not {}", to_py(expr.as_ref(), ind)),
-        Core::And { left, right } => {
-            format!(
-                "{} and {}",
-                to_py(left.as_ref(), ind),
-                to_py(right.as_ref(), ind)
-            )
-        }
-        Core::Or { left, right } => {
-            format!(
-                "{} or {}",
-                to_py(left.as_ref(), ind),
-                to_py(right.as_ref(), ind)
-            )
-        }
-        Core::Is { left, right } => {
-            format!(
-                "{} is {}",
-                to_py(left.as_ref(), ind),
-                to_py(right.as_ref(), ind)
-            )
-        }
-        Core::IsN { left, right } => {
-            format!(
-                "{} is not {}",
-                to_py(left.as_ref(), ind),
-                to_py(right.as_ref(), ind)
-            )
-        }
-        Core::Eq { left, right } => {
-            format!(
-                "{} == {}",
-                to_py(left.as_ref(), ind),
-                to_py(right.as_ref(), ind)
-            )
-        }
-        Core::Neq { left, right } => {
-            format!(
-                "{} != {}",
-                to_py(left.as_ref(), ind),
-                to_py(right.as_ref(), ind)
-            )
-        }
+        Core::Not { expr } => format!("not {}", operand(expr, 5, ind)),
+        Core::And { left, right } => binary(left, "and", right, 4, ind),
+        Core::Or { left, right } => binary(left, "or", right, 3, ind),
+        Core::Is { left, right } => comparison(left, "is", right, ind),
+        Core::IsN { left, right } => comparison(left, "is not", right, ind),
+        Core::Eq { left, right } => comparison(left, "==", right, ind),
+        Core::Neq { left, right } => comparison(left, "!=", right, ind),
         Core::IsA { left, right } => {
             format!(
                 "isinstance({},{})",
-                to_py(left.as_ref(), ind),
-                to_py(right.as_ref(), ind)
+                operand(left, 1, ind),
+                operand(right, 1, ind)
             )
         }
 
-        Core::AddU { expr } => format!("+{}", to_py(expr, ind)),
-        Core::Add { left, right } => {
-            format!(
-                "{} + {}",
-                to_py(left.as_ref(), ind),
-                to_py(right.as_ref(), ind)
-            )
-        }
-        Core::SubU { expr } => format!("-{}", to_py(expr, ind)),
-        Core::Sub { left, right } => {
-            format!(
-                "{} - {}",
-                to_py(left.as_ref(), ind),
-                to_py(right.as_ref(), ind)
-            )
-        }
-        Core::Mul { left, right } => {
-            format!(
-                "{} * {}",
-                to_py(left.as_ref(), ind),
-                to_py(right.as_ref(), ind)
-            )
-        }
-        Core::Div { left, right } => {
-            format!(
-                "{} / {}",
-                to_py(left.as_ref(), ind),
-                to_py(right.as_ref(), ind)
-            )
-        }
-        Core::FDiv { left, right } => {
-            format!(
-                "{} // {}",
-                to_py(left.as_ref(), ind),
-                to_py(right.as_ref(), ind)
-            )
-        }
+        Core::AddU { expr } => format!("+{}", operand(expr, 13, ind)),
+        Core::Add { left, right } => binary(left, "+", right, 11, ind),
+        Core::SubU { expr } => format!("-{}", operand(expr, 13, ind)),
+        Core::Sub { left, right } => binary(left, "-", right, 11, ind),
+        Core::Mul { left, right } => binary(left, "*", right, 12, ind),
+        Core::Div { left, right } => binary(left, "/", right, 12, ind),
+        Core::FDiv { left, right } => binary(left, "//", right, 12, ind),
         Core::Pow { left, right } => {
-            format!(
-                "{} ** {}",
-                to_py(left.as_ref(), ind),
-                to_py(right.as_ref(), ind)
-            )
+            // Right associative, and binds tighter than a unary operator on its left.
+            format!("{} ** {}", operand(left, 15, ind), operand(right, 13, ind))
         }
-        Core::Mod { left, right } => {
-            format!(
-                "{} % {}",
-                to_py(left.as_ref(), ind),
-                to_py(right.as_ref(), ind)
-            )
-        }
-        Core::Sqrt { expr } => format!("math.sqrt({})", to_py(expr.as_ref(), ind)),
+        Core::Mod { left, right } => binary(left, "%", right, 12, ind),
+        Core::Sqrt { expr } => format!("math.sqrt({})", operand(expr, 1, ind)),
 
-        Core::BAnd { left, right } => {
-            format!(
-                "{} & {}",
-                to_py(left.as_ref(), ind),
-                to_py(right.as_ref(), ind)
-            )
-        }
-        Core::BOr { left, right } => {
-            format!(
-                "{} | {}",
-                to_py(left.as_ref(), ind),
-                to_py(right.as_ref(), ind)
-            )
-        }
-        Core::BXOr { left, right } => {
-            format!(
-                "{} ^ {}",
-                to_py(left.as_ref(), ind),
-                to_py(right.as_ref(), ind)
-            )
-        }
-        Core::BOneCmpl { expr } => format!("~{}", to_py(expr, ind)),
-        Core::BLShift { left, right } => {
-            format!(
-                "{} << {}",
-                to_py(left.as_ref(), ind),
-                to_py(right.as_ref(), ind)
-            )
-        }
-        Core::BRShift { left, right } => {
-            format!(
-                "{} >> {}",
-                to_py(left.as_ref(), ind),
-                to_py(right.as_ref(), ind)
-            )
-        }
+        Core::BAnd { left, right } => binary(left, "&", right, 9, ind),
+        Core::BOr { left, right } => binary(left, "|", right, 7, ind),
+        Core::BXOr { left, right } => binary(left, "^", right, 8, ind),
+        Core::BOneCmpl { expr } => format!("~{}", operand(expr, 13, ind)),
+        Core::BLShift { left, right } => binary(left, "<<", right, 10, ind),
+        Core::BRShift { left, right } => binary(left, ">>", right, 10, ind),
 
         Core::Return { expr } => format!("return {}", to_py(expr.as_ref(), ind)),
 
@@ -433,8 +314,10 @@ fn to_py(core: &Core, ind: usize) -> String {
             to_py(col.as_ref(), ind),
             newline_if_body(body, ind)
         ),
-        Core::In { left, right } => format! {"{} in {}", to_py(left, ind), to_py(right, ind)},
-        Core::Index { item, range } => format!("{}[{}]", to_py(item, ind), to_py(range, ind)),
+        Core::In { left, right } => comparison(left, "in", right, ind),
+        Core::Index { item, range } => {
+            format!("{}[{}]", operand(item, 15, ind), to_py(range, ind))
+        }
         Core::If { cond, then } => {
             format!(
                 "if {}:{}",
@@ -451,9 +334,9 @@ fn to_py(core: &Core, ind: usize) -> String {
         ),
         Core::Ternary { cond, then, el } => format!(
             "{} if {} else {}",
-            to_py(then.as_ref(), ind),
-            to_py(cond.as_ref(), ind + 1),
-            to_py(el.as_ref(), ind + 1)
+            operand(then, 3, ind),
+            operand(cond, 3, ind + 1),
+            operand(el, 1, ind + 1)
         ),
         Core::While { cond, body } => {
             format!(
@@ -529,6 +412,65 @@ fn to_py(core: &Core, ind: usize) -> String {
 
         Core::Raise { error } => format!("raise {}", to_py(error, ind)),
     }
+}
+
+/// Binding strength of the Python expression a [Core] node is printed as,
+/// following the Python grammar (lambda weakest, primaries strongest).
+fn precedence(core: &Core) -> u8 {
+    match core {
+        Core::TupleLiteral { .. }
+        | Core::Comprehension { .. }
+        | Core::KeyValue { .. }
+        | Core::ExpressionType { .. } => 0,
+        Core::AnonFun { .. } => 1,
+        Core::Ternary { .. } => 2,
+        Core::Or { .. } => 3,
+        Core::And { .. } => 4,
+        Core::Not { .. } => 5,
+        Core::Ge { .. }
+        | Core::Geq { .. }
+        | Core::Le { .. }
+        | Core::Leq { .. }
+        | Core::Eq { .. }
+        | Core::Neq { .. }
+        | Core::Is { .. }
+        | Core::IsN { .. }
+        | Core::In { .. } => 6,
+        Core::BOr { .. } => 7,
+        Core::BXOr { .. } => 8,
+        Core::BAnd { .. } => 9,
+        Core::BLShift { .. } | Core::BRShift { .. } => 10,
+        Core::Add { .. } | Core::Sub { .. } => 11,
+        Core::Mul { .. } | Core::Div { .. } | Core::FDiv { .. } | Core::Mod { .. } => 12,
+        Core::AddU { .. } | Core::SubU { .. } | Core::BOneCmpl { .. } => 13,
+        Core::Pow { .. } => 14,
+        _ => 16,
+    }
+}
+
+/// Print an operand, in parentheses if it binds weaker than `min` so that
+/// Python parses the text back to the same tree.
+fn operand(core: &Core, min: u8, ind: usize) -> String {
+    let py = to_py(core, ind);
+    if precedence(core) < min {
+        format!("({py})")
+    } else {
+        py
+    }
+}
+
+/// Print `left op right` for a left-associative operator of strength `prec`.
+fn binary(left: &Core, op: &str, right: &Core, prec: u8, ind: usize) -> String {
+    format!(
+        "{} {op} {}",
+        operand(left, prec, ind),
+        operand(right, prec + 1, ind)
+    )
+}
+
+/// Comparisons chain in Python (`a < b < c`), so neither side may be a comparison.
+fn comparison(left: &Core, op: &str, right: &Core, ind: usize) -> String {
+    format!("{} {op} {}", operand(left, 7, ind), operand(right, 7, ind))
 }
 
 fn indent(amount: usize) -> String {
